@@ -30,6 +30,8 @@ func init() {
 			{ID: "R13h", Floor: 2, Doc: "Inspect scans exactly the payload window DataOffset..DataOffset+DataSize (= R10d)", Run: ruleR10d},
 			{ID: "R13i", Floor: 1, Doc: "Inspect and the block reader run under the same options: nothing rewrites an option after ApplyOptions (= R04j)", Run: ruleR04j},
 			{ID: "R13j", Floor: 1, Doc: "Header.HasIndex means exactly `IndexOffset != 0`: Inspect, the readers and verify decide by it whether an index must be readable; an offset that is set but implausible is an error to report, not an absent index", Run: ruleR13j},
+			{ID: "R13k", Floor: 1, Doc: "no new mutable package-level state in the library: a package-level variable the pinned tree does not have is not written after initialisation (directly, or through a repository function given its address) — an inspection reports what is in the archive, not what an earlier call or another reader left in a memo", Run: ruleR13k},
+			{ID: "R13l", Floor: 1, Doc: "what Inspect accepts depends on parser options only: it reads no index or writer option (MaxIndexCidSize, StoreIdentityCIDs, IndexCodec, paddings, ...), so it succeeds exactly where a scan with the same reader options does", Run: ruleR13l},
 		},
 	})
 }
@@ -222,6 +224,12 @@ func ruleR13c(c *Ctx, r *Report) {
 		bad := ""
 		if st == nil {
 			bad = "not reported"
+		} else if a, b, ok := builtinArgs(canon(st.Val), "max"); ok {
+			// max(field, x): raised to x exactly when x is larger
+			isF := func(v ssa.Value) bool { return loadsField(canon(v), modV2, "Stats", m.field) }
+			if !(isF(a) && isQ(m.q)(b)) && !(isF(b) && isQ(m.q)(a)) {
+				bad = "the maximum is not max(" + m.field + ", per-block " + m.q + " length)"
+			}
 		} else if !isQ(m.q)(st.Val) {
 			bad = "the maximum is raised to a quantity other than the per-block " + m.q + " length"
 		} else {
@@ -328,6 +336,14 @@ func checkExtremum(fn *ssa.Function, loopPhi *ssa.Phi, isX func(ssa.Value) bool,
 		return "no MaxUint64 initial value"
 	}
 	for _, u := range updates {
+		// min(acc, x) / max(acc, x): the builtin is the guarded update in one expression
+		if a, b, ok := builtinArgs(canon(u), map[string]string{"lt": "min", "gt": "max"}[rel]); ok {
+			isAcc := func(v ssa.Value) bool { return canon(v) == ssa.Value(loopPhi) }
+			if (isAcc(a) && isX(b)) || (isAcc(b) && isX(a)) {
+				continue
+			}
+			return "the accumulator is combined with something other than the per-block quantity"
+		}
 		p, ok := canon(u).(*ssa.Phi)
 		if !ok {
 			return "update shape not recognised"
@@ -614,4 +630,17 @@ func ruleR13j(c *Ctx, r *Report) {
 		}
 	}
 	r.Check(bad == "", key, c.Pos(fn.Pos()), "IndexOffset != 0", bad+": a header whose index offset is set but wrong then counts as index-less, and Inspect/readers skip the index instead of failing on it")
+}
+
+// builtinArgs: v is a call of the two-argument builtin `name` (min / max); its arguments.
+func builtinArgs(v ssa.Value, name string) (ssa.Value, ssa.Value, bool) {
+	cl, ok := v.(*ssa.Call)
+	if !ok {
+		return nil, nil, false
+	}
+	b, ok := cl.Call.Value.(*ssa.Builtin)
+	if !ok || b.Name() != name || len(cl.Call.Args) != 2 {
+		return nil, nil, false
+	}
+	return cl.Call.Args[0], cl.Call.Args[1], true
 }
